@@ -21,7 +21,11 @@ CONSTANTS NT,        \* test chromosome slots
           Ops,       \* the calls explored (a slice of the alphabet)
           Modes,     \* which initial populations: "T" one test, "S" test + suite, "A" = "S" with all calls
           MaxTop,    \* bound on live test chromosomes for tclone
-          ExtraT     \* additional calls explored from the one-test population (mode "T")
+          ExtraT,    \* additional calls explored from the one-test population (mode "T")
+          ExtraC,    \* ... in the clone focus modes
+          ExtraM,    \* ... in the suite/member focus modes
+          Coarse     \* TRUE: few representative outcomes per random operator (behaviour generation only:
+                     \* the real outcome is not the model's choice)
 
 VARIABLES W, obs
 vars == <<W, obs>>
@@ -38,8 +42,17 @@ AllOps == {"tq", "sq", "taddf", "taddc", "saddf", "saddc", "tinv", "sinv", "tclo
            "tmut", "txo", "sadd", "sdel", "sset", "sxo", "smut"}
 TestOps == {"tq", "taddf", "taddc", "tinv", "tclone", "tmut", "txo"}
 SuiteOps == {"sq", "tq", "saddf", "saddc", "sinv", "sclone", "sadd", "sdel", "sset", "sxo", "smut"}
-ModeOps(m) == IF m = "T" THEN TestOps ELSE IF m = "S" THEN SuiteOps ELSE AllOps
+\* focus modes: few calls, one query kind per history, explored deeper
+\*   "Cfit"/"Cisc"/"Ccov": one test and its clones; "Mfit"/"Misc"/"Mcov": suite, its members, a spare test
+CloneOps == {"tq", "tclone", "tmut", "txo", "tinv"}
+MemberOps == {"sq", "tq", "smut", "sadd", "sdel", "sset", "sclone", "sinv", "tmut"}
+FocusC == {"Cfit", "Cisc", "Ccov"}
+FocusM == {"Mfit", "Misc", "Mcov"}
+KindOf(m) == IF m \in {"Cfit", "Mfit"} THEN "fit" ELSE IF m \in {"Cisc", "Misc"} THEN "isc" ELSE "cov"
+ModeOps(m) == IF m = "T" THEN TestOps ELSE IF m = "S" THEN SuiteOps
+              ELSE IF m \in FocusC THEN CloneOps ELSE IF m \in FocusM THEN MemberOps ELSE AllOps
 ModesTS == {"T", "S"}
+ModesAll == {"T", "S"} \cup FocusC \cup FocusM
 ModesA == {"A"}
 
 TIds == 1..NT
@@ -76,13 +89,16 @@ Acts(W0) ==
       \cup {A("smut", s, 0, 0, 0, "", "") : s \in ls}
   IN {act \in cand : /\ act.op \in Ops /\ act.op \in ModeOps(W0.mode) /\ Enabled(W0, act)
                      /\ (act.op = "tclone" => Cardinality(lt) < MaxTop)
-                     /\ ((act.op = "tq" /\ W0.mode = "S") => W0.t[act.a].owner # 0)}
+                     /\ ((act.op = "tq" /\ W0.mode \in {"S"} \cup FocusM) => W0.t[act.a].owner # 0)
+                     /\ ((IsQuery(act) /\ W0.mode \in FocusC \cup FocusM) =>
+                            (act.k = KindOf(W0.mode) /\ act.f \in {"f1", "g1"}))}
 
 (* the outcomes the operator code admits; fresh content versions come from the clock *)
 OutRec(id, c, h, u, d) == [id |-> id, c |-> c, chg |-> h, sut |-> u, did |-> d]
 Same(W0, m) == OutRec(m, W0.t[m].c, W0.t[m].chg, W0.t[m].sut, FALSE)
 Cands(W0, m, newv) ==
-  {OutRec(m, c, h, u, TRUE) : c \in {W0.t[m].c, EmptyV, newv}, h \in BOOLEAN, u \in BOOLEAN}
+  IF Coarse THEN {OutRec(m, W0.t[m].c, W0.t[m].chg, W0.t[m].sut, TRUE), OutRec(m, newv, TRUE, TRUE, TRUE)}
+  ELSE {OutRec(m, c, h, u, TRUE) : c \in {W0.t[m].c, EmptyV, newv}, h \in BOOLEAN, u \in BOOLEAN}
 
 RECURSIVE MemOuts(_, _, _)
 MemOuts(W0, mem, i) ==
@@ -102,8 +118,9 @@ Outs(W0, act) ==
          LET mem == W0.s[act.a].mem
              nv  == W0.clk + Len(mem) + 1
              add == IF FreeT(W0) # {} /\ Len(mem) < MaxSuite
-                    THEN {<<>>, <<[c |-> nv, sut |-> TRUE]>>, <<[c |-> nv, sut |-> FALSE]>>,
-                          <<[c |-> EmptyV, sut |-> FALSE]>>}
+                    THEN IF Coarse THEN {<<>>, <<[c |-> nv, sut |-> TRUE]>>}
+                         ELSE {<<>>, <<[c |-> nv, sut |-> TRUE]>>, <<[c |-> nv, sut |-> FALSE]>>,
+                               <<[c |-> EmptyV, sut |-> FALSE]>>}
                     ELSE {<<>>}
          IN {[ts |-> ts, added |-> ad] : ts \in MemOuts(W0, mem, 1), ad \in add}
     [] OTHER -> {NoOut}
@@ -116,7 +133,9 @@ Do(act, out) ==
      IN /\ W' = [r.W EXCEPT !.clk = MaxOf({W.clk} \cup UsedVersions(out))]
         /\ obs' = r.v
 
-DepthOf(W0) == IF W0.mode = "T" THEN MaxDepth + ExtraT ELSE MaxDepth
+DepthOf(W0) == IF W0.mode = "T" THEN MaxDepth + ExtraT
+               ELSE IF W0.mode \in FocusC THEN MaxDepth + ExtraC
+               ELSE IF W0.mode \in FocusM THEN MaxDepth + ExtraM ELSE MaxDepth
 Next == /\ TLCGet("level") <= DepthOf(W)
         /\ \E act \in Acts(W) : \E out \in Outs(W, act) : Do(act, out)
 
@@ -125,15 +144,17 @@ Next == /\ TLCGet("level") <= DepthOf(W)
 InitWorld(mode, sut1, regF, regC) ==
   [t |-> [i \in TIds |->
             IF i = 1 THEN NewT(1, sut1, IF regF THEN FFSeq ELSE <<>>, IF regC THEN CFSeq ELSE <<>>, 0)
-            ELSE IF i = 2 /\ mode # "T" THEN NewT(2, TRUE, FactoryFF, <<>>, 1)
+            ELSE IF i = 2 /\ mode \notin {"T"} \cup FocusC THEN NewT(2, TRUE, FactoryFF, IF mode \in FocusM THEN CFSeq ELSE <<>>, 1)
             ELSE DeadT],
    s |-> [j \in SIds |->
-            IF j = 1 /\ mode # "T"
+            IF j = 1 /\ mode \notin {"T"} \cup FocusC
             THEN NewS(<<2>>, IF regF THEN FFSeq ELSE <<>>, IF regC THEN CFSeq ELSE <<>>)
             ELSE DeadS],
    clk |-> 2, mode |-> mode]
 
-Init == /\ \E mode \in Modes : \E sut1, regF, regC \in BOOLEAN : W = InitWorld(mode, sut1, regF, regC)
+\* the focus modes start with everything registered and a call on the SUT
+InitParams(mode) == IF mode \in FocusC \cup FocusM THEN {<<TRUE, TRUE, TRUE>>} ELSE BOOLEAN \X BOOLEAN \X BOOLEAN
+Init == /\ \E mode \in Modes : \E pr \in InitParams(mode) : W = InitWorld(mode, pr[1], pr[2], pr[3])
         /\ obs = NoV
 
 Spec == Init /\ [][Next]_vars
